@@ -13,18 +13,38 @@ from .model import Ref, runs_of
 
 # ----------------------------------------------------------------------------- node universes
 INT_POOL = [0, 1, 2, 3, -1, 7, 10, -5, 42, 100, -2, 1000, 2 ** 40, -300]     # incl. hash(-1) == hash(-2) and ints outside the small-int cache
-STR_POOL = ['a', 'b', 'c', 'A', '', 'é', 'n1', 'x y', 'ß', '0']
+STR_POOL = ['a', 'b', 'c', 'A', '', 'é', 'n1', 'x y', 'ß', '0', '+', '-']      # '+' / '-' are also the stream's op symbols
 SAFE_STR_POOL = ['a', 'b', 'c', 'A', 'n1', 'é', 'ß', 'zz', 'Q', 'k9', '0', '7', '10', '-1']     # incl. strings that look like ints
 TUPLE_POOL = [[1, 2], [2, 1], [0], [], ['a', 1], [1, 2, 3]]
 FSET_POOL = [[1], [1, 2], [], [3], ['a'], [2, 3]]
 
 
 def encode_node(n):
+    if isinstance(n, Opaque):
+        return {"obj": n.k}
     if isinstance(n, tuple):
         return {"tuple": [encode_node(x) for x in n]}
     if isinstance(n, frozenset):
         return {"fset": sorted((encode_node(x) for x in n), key=repr)}
     return n
+
+
+class Opaque:
+    """A node id that is hashable and equal only to itself (a plain class instance).  A fixed pool of six:
+    cases refer to them by number, so replay files stay exact."""
+    __slots__ = ('k',)
+
+    def __init__(self, k):
+        self.k = k
+
+    def __repr__(self):
+        return 'Opaque(%d)' % self.k
+
+    def __deepcopy__(self, memo):      # like object(): copying yields another (unequal) object
+        return Opaque(self.k)
+
+
+OPAQUE = [Opaque(i) for i in range(6)]
 
 
 def fresh(n):
@@ -50,6 +70,8 @@ def decode_node(x):
             return tuple(decode_node(y) for y in x["tuple"])
         if "fset" in x:
             return frozenset(decode_node(y) for y in x["fset"])
+        if "obj" in x:
+            return OPAQUE[x["obj"]]
         raise ValueError(x)
     if isinstance(x, list):
         return tuple(decode_node(y) for y in x)
@@ -57,7 +79,7 @@ def decode_node(x):
 
 
 @st.composite
-def universe(draw, kinds=('int', 'str', 'tuple', 'fset', 'mixed'), lo=3, hi=6):
+def universe(draw, kinds=('int', 'str', 'tuple', 'fset', 'mixed', 'obj'), lo=3, hi=6):
     kind = draw(st.sampled_from(kinds))
     n = draw(st.integers(lo, hi))
     if kind == 'int':
@@ -70,11 +92,22 @@ def universe(draw, kinds=('int', 'str', 'tuple', 'fset', 'mixed'), lo=3, hi=6):
         pool = [{"tuple": p} for p in TUPLE_POOL]
     elif kind == 'fset':
         pool = [{"fset": p} for p in FSET_POOL]
+    elif kind == 'obj':
+        pool = [{"obj": i} for i in range(6)]
     else:
-        pool = [0, 1, 2, -1, 7, 1000] + ['1', '0', 'a', '', '-1', 'A']     # ints and strings, incl. ids that print alike
+        # ints and strings incl. ids that print alike, plus tuples whose members are ids themselves
+        pool = [0, 1, 2, -1, 7, 1000] + ['1', '0', 'a', '', '-1', 'A'] + [{"tuple": [1, 2]}, {"tuple": [0, 1]}]
     n = min(n, len(pool))
     idx = draw(st.lists(st.integers(0, len(pool) - 1), min_size=n, max_size=n, unique=True))
-    return [pool[i] for i in idx]
+    out = [pool[i] for i in idx]
+    # one universe in four starts with two distinct ids that hash alike (-1/-2, 0/''), or with a tuple id
+    # next to its own members: the first ids of a universe are the ones histories use most
+    if draw(st.integers(0, 3)) == 0:
+        front = {'int': [-1, -2], 'mixed': [0, '', 1, 2, {"tuple": [1, 2]}][draw(st.integers(0, 1)) * 2:][:3 if n >= 4 else 2]}.get(kind)
+        if front:
+            out = front + [x for x in out if x not in front]
+            out = out[:max(n, len(front))]
+    return out
 
 
 BASES = [0, 0, 1, -7, -3, 1000, -10 ** 6, 10 ** 9, 2 ** 70]     # -3 / -7 straddle 0, -1, -2; 2**70 is beyond machine words
@@ -83,7 +116,8 @@ ATTR_VALUES = st.recursive(
     st.one_of(st.integers(-3, 3), st.sampled_from(['x', 'y', '', 'A']), st.none(), st.booleans()),
     lambda c: st.one_of(st.lists(c, max_size=2), st.dictionaries(st.sampled_from(['k', 'j']), c, max_size=2)),
     max_leaves=4)
-ATTRS = st.dictionaries(st.sampled_from(['Label', 'w', 'meta', 'lab']), ATTR_VALUES, max_size=2)
+# attribute names include ones that are parameter names somewhere in the library or in networkx ('n', 'data', 'source', ...)
+ATTRS = st.dictionaries(st.sampled_from(['Label', 'w', 'meta', 'lab', 'n', 'source', 'target', 'time', 'data', 't']), ATTR_VALUES, max_size=2)
 
 
 # ----------------------------------------------------------------------------- histories
@@ -125,7 +159,7 @@ def _span(draw, model, key, base, horizon, want_reject=False, maxlen=4):
 
 @st.composite
 def history(draw, classes=('DynGraph', 'DynDiGraph'), removal=(True,), kinds=None, max_ops=12,
-            min_ops=1, node_kinds=('int', 'str', 'tuple', 'fset', 'mixed'), rejects=None,
+            min_ops=1, node_kinds=('int', 'str', 'tuple', 'fset', 'mixed', 'obj'), rejects=None,
             horizon=10, allow_missing_t=False, bases=None, attrs=True, uni=(3, 6), bulk_e=True, maxlen=4, selfloops=True):
     """Draw a case.  rejects: None = anchors include 'before' (rejections happen naturally),
     False = never generate a span that starts before the latest run."""
